@@ -317,14 +317,19 @@ def _eval_subm(case):
         lo_, hi_ = gen.dt_range(dtype)
         buf = _arr([(lo_ + (i * 2654435761 + 12345) % (hi_ - lo_ + 1)) if dtype != 'bool' else (i + 1) % 2 for i in range(len(alla))],
                    dtype, (len(alla),))
+        bufints = _ints(buf)
         res = mh.morph.subm(Al, Bl, out=buf); same = res is buf
     else:
         res = mh.morph.subm(Al, Bl); same = True
     got = _ints(res)
-    drv = core.drive([f"c02 kind=subm dt={gen.DT_NAME[dtype]} a={gen.enc_arr(alla)} b={gen.enc_arr(allb)}"])[0]
+    extra = '' if mode == 'none' else f" outmode={mode}" + (f" buf={gen.enc_arr(bufints)}" if mode == 'fresh-dirty' else '')
+    drv = core.drive([f"c02 kind=subm dt={gen.DT_NAME[dtype]} a={gen.enc_arr(alla)} b={gen.enc_arr(allb)}{extra}"])[0]
     model, spec = core.ints(drv['model']), core.ints(drv['spec'])
     fnd = []
     sfx = '' if mode == 'none' else f':out={mode}'
+    if mode != 'none' and core.ints(drv['prog']) != got:
+        # the wrapper as a buffer program (submBuf; C02_subm_buffer_program proves it equal to the pure subtraction in every mode)
+        fnd.append(dict(kind='model', key=f'subm-prog:{dtype}{sfx}', detail=dict(n=sum(1 for x, y in zip(core.ints(drv['prog']), got) if x != y))))
     bad = [i for i, (x, y) in enumerate(zip(got, spec)) if x != y]
     if bad:
         i = bad[0]
